@@ -214,13 +214,21 @@ def injected_messages():
         "service-request": msg(c.cMSG_SERVICE_REQUEST, ("s", "ssh-userauth")),
         "userauth-request-none": msg(c.cMSG_USERAUTH_REQUEST, ("s", "u"), ("s", "ssh-connection"), ("s", "none")),
     }
+# well-formed identification strings whose software-version token is odd: the session goes on, and code that
+# looks at the peer's version (server bug work-arounds) runs on whatever thread reaches it
+ODD_BANNERS = ["SSH-2.0-OpenSSH_7.", "SSH-2.0-OpenSSH_", "SSH-2.0-OpenSSH_8..2", "SSH-2.0-OpenSSH_.", "SSH-2.0-OpenSSH_7.7",
+               "SSH-2.0-OpenSSH_7.8", "SSH-2.0-OpenSSH_6", "SSH-2.0-OpenSSH_10.0p1 Debian-1", "SSH-2.0-OpenSSH_..",
+               "SSH-2.0-OpenSSH_99999999999999999999999.1", "SSH-2.0-OpenSSH_\u0667.\u0667", "SSH-2.0-OpenSSH_7.x",
+               "SSH-2.0-OpenSSH_-1.5", "SSH-1.99-OpenSSH_3.9", "SSH-2.0-dropbear_2022.83", "SSH-2.0-paramiko_-OpenSSH_",
+               "SSH-2.0-OpenSSH_for_Windows_8.1", "SSH-2.0-OpenSSH_7.7.7.7.7", "SSH-2.0--OpenSSH_", "SSH-2.0-x -OpenSSH_7."]
 BANNERS = [b"SSH-2.0-\xff\xfe\xfd", b"SSH-1.0-old", b"SSH-2.0", b"NOTSSH", b"SSH-2.0-" + b"A" * 5000,
            b"SSH-9.9-x y z", b"\x00\x01\x02", b"SSH-2.0-x\x00y"]
 
 
 def fuzz_session(victim, index, kind, seed, kex=None, banner=None, pk=False):
     # pk: False = classic client + password; True = ServiceRequestingTransport + publickey;
-    #     "ki" = classic client + keyboard-interactive; "ki-srt" = ServiceRequestingTransport + keyboard-interactive
+    #     "ki" = classic client + keyboard-interactive; "ki-srt" = ServiceRequestingTransport + keyboard-interactive;
+    #     "cert" / "cert-srt" = publickey with an RSA key carrying an OpenSSH certificate (classic / SRT client)
     """One scripted session; the attacker's ``index``-th outgoing packet is mutated with ``kind``.
     Returns (events, mutated_type) where events = [(where, exception)] seen on the victim side."""
     import random
@@ -234,7 +242,7 @@ def fuzz_session(victim, index, kind, seed, kex=None, banner=None, pk=False):
     kw = {}
     if kex:
         kw["disabled_algorithms"] = {"kex": kex}
-    if pk in (True, "ki-srt"):  # the newer client flavour: service request + public-key auth run on the caller's thread
+    if pk in (True, "ki-srt", "cert-srt"):  # the newer client flavour: service request + public-key auth run on the caller's thread
         from paramiko.transport import ServiceRequestingTransport
 
         tc = ServiceRequestingTransport(sc, **kw)
@@ -250,7 +258,7 @@ def fuzz_session(victim, index, kind, seed, kex=None, banner=None, pk=False):
     attacker, vict = (ts, tc) if victim == "client" else (tc, ts)
     info = {"type": None, "count": 0}
     if banner is not None:
-        attacker.local_version = banner.decode("latin-1")
+        attacker.local_version = banner.decode("latin-1") if isinstance(banner, bytes) else banner
     else:
         orig = attacker.packetizer.send_message
 
@@ -295,6 +303,12 @@ def fuzz_session(victim, index, kind, seed, kex=None, banner=None, pk=False):
                 return
             if pk in ("ki", "ki-srt"):
                 c("auth_interactive", lambda: tc.auth_interactive("u", lambda t, i, p: ["pw"] * len(p)))
+            elif pk in ("cert", "cert-srt"):
+                from paramiko import RSAKey
+
+                ck = RSAKey.from_private_key_file(lib_net.support("rsa.key"))
+                ck.load_certificate(lib_net.support("rsa.key-cert.pub"))
+                c("auth_publickey", lambda: tc.auth_publickey("u", ck))
             elif pk:
                 c("auth_publickey", lambda: tc.auth_publickey("u", lib_net.hostkey()))
             else:
@@ -439,7 +453,9 @@ def run(ctx):
 
     ctx.rule = ("(a) each exception class raised inside the real transport thread x each reporting API (24 cases, "
                 "exhaustive); (b) scripted sessions against a client victim and a server victim with the attacker's "
-                "k-th packet mutated by one of 7 structure-aware mutations, plus malformed banners. distinct = "
+                "k-th packet mutated by one of 7 structure-aware mutations, plus malformed banners and well-formed banners "
+                "with odd version tokens x every client flavour (password, publickey, keyboard-interactive, RSA "
+                "certificate; classic and ServiceRequestingTransport). distinct = "
                 "(victim, mutated message type, mutation kind, surfaced classes); non-trivial = the mutation changed "
                 "the session outcome (some exception was surfaced on the victim)")
     ctx.assume("handlers/decoders are not modelled individually: which peer bytes make which handler fail is explored "
@@ -503,6 +519,9 @@ def run(ctx):
                             jobs.append((victim, idx, kind, (ctx.seed, victim, idx, kind, s, "pk").__repr__(), kx, None, True))
                             jobs.append((victim, idx, kind, (ctx.seed, victim, idx, kind, s, "ki").__repr__(), kx, None,
                                          "ki" if (idx + s) % 2 == 0 else "ki-srt"))
+                            if ctx.thorough or (idx + len(kind)) % 2 == 0:
+                                jobs.append((victim, idx, kind, (ctx.seed, victim, idx, kind, s, "cert").__repr__(), kx, None,
+                                             "cert" if (idx + s) % 2 == 1 else "cert-srt"))
         inj = sorted(injected_messages())
         for idx in range(2, 9):
             for name in inj:
@@ -513,6 +532,9 @@ def run(ctx):
                                      flavour))
         for b in BANNERS:
             jobs.append((victim, -1, "banner", "b", None, b, False))
+        for b in ODD_BANNERS:
+            for flavour in ((False, True, "ki", "ki-srt", "cert", "cert-srt") if victim == "client" else (False,)):
+                jobs.append((victim, -1, "odd-banner", "b", None, b, flavour))
     ctx.rng.shuffle(jobs)
 
     def do(job):
@@ -547,7 +569,8 @@ def run(ctx):
         for where, e in events:
             if not isinstance(e, (SSHException, EOFError, OSError)):
                 ctx.fail(exc_site(e), {"victim": victim, "pubkey_client": pk, "packet_index": idx, "msg_type": mtype, "mutation": kind,
-                                       "seed": seed, "banner": banner.hex() if banner else None, "api": where},
+                                       "seed": seed, "api": where,
+                                       "banner": (banner.hex() if isinstance(banner, bytes) else banner) if banner else None},
                          "%s raised/returned %r" % (where, e))
     if infra > len(jobs) // 10:
         raise InfraError("too many harness errors in fuzz sessions: %d of %d" % (infra, len(jobs)))
